@@ -248,14 +248,20 @@ func (c *Client) Upload(namespace string, name string, src io.Reader) error {
 		return errors.New("refusing upload: src does not implement io.Seeker")
 	}
 
+	// Remember where the caller handed the source over: both backends must receive the bytes from there on.
+	start, err := rs.Seek(0, io.SeekCurrent)
+	if err != nil {
+		return err
+	}
+
 	// write to both, fail if write fails for any
-	err := c.active.Upload(namespace, name, rs)
+	err = c.active.Upload(namespace, name, rs)
 	if err != nil {
 		return err
 	}
 
 	// Need to rewind the ReadSeeker here before the second upload
-	if _, err := rs.Seek(0, io.SeekStart); err != nil {
+	if _, err := rs.Seek(start, io.SeekStart); err != nil {
 		return err
 	}
 
